@@ -492,6 +492,8 @@ def rules(rep, facts):
     r6_attach(rep, facts)
     r6b_header_span(rep, facts)
     r9_header_span_kept(rep, facts)
+    from .rules_events import r_spans
+    r_spans(rep, facts)
     r10_array_span(rep, facts)
     r11_table_span_grows(rep, facts)
     if 'serde' in feats and 'serde_spanned' in facts.crates:
